@@ -333,9 +333,19 @@ def loaders(config, cwd=None):
                     exp.append([oxi_term(q.subject), oxi_term(q.predicate), oxi_term(q.object), oxi_term(q.graph_name)])
             except Exception:
                 bad += 1
-        # blank-node identity is given by the labels in the text (every parse call renames them)
+        # blank-node identity is given by the labels in the text: the well-formed statements parsed as ONE document by the strict parser
+        # (labels inside literals or IRIs are not blank nodes, so the text is not searched for them)
+        good = []
         for l in out['set']:
-            labels.update(_re.findall(r'(?:^| )_:(\S+)', l))
+            try:
+                list(pyoxigraph.parse(io.BytesIO((l + ' .\n').encode('utf-8')), 'application/n-quads')); good.append(l)
+            except Exception:
+                pass
+        try:
+            for q in pyoxigraph.parse(io.BytesIO(''.join(l + ' .\n' for l in good).encode('utf-8')), 'application/n-quads'):
+                bn_ids(q.subject, labels); bn_ids(q.object, labels)
+        except Exception:
+            pass
         out['expected_bnodes'] = len(labels)
         out['expected'] = sorted(exp)
         out['unparseable'] = bad
